@@ -5,7 +5,7 @@ from .framework import rule, Ob, fmt_trace, sql_events, call_events, values_in, 
 from .model import AnalysisError, walk_shallow, dotted
 from .values import V
 from .interp import Interp
-from .rules_lock import core_entries, _is_row_write, _stmt_sig
+from .rules_lock import core_entries, _is_row_write, _stmt_sig, helper_roles, bind_roles
 from . import sql as sqlmod
 
 
@@ -71,12 +71,15 @@ def e1(ctx):
 
 
 # ---------------------------------------------------------------------- E2
-E2_ROLES = {
+E2_TEMPLATE = {
     'core.Cache.pop': 'explicit', 'core.Cache.__delitem__': 'explicit', 'core.Cache.pull': 'explicit-head',
     'core.Cache.peek': 'expired-head', 'core.Cache.peekitem': 'expired-head',
-    'core.Cache._cull': 'lazy', 'core.Cache.cull': 'size', 'core.Cache._select_delete': 'bulk',
+    '<cull>': 'lazy', 'core.Cache.cull': 'size', '<bulk>': 'bulk',
     'core.Cache.check': 'repair',
 }
+
+
+E2_ROLES = {}
 
 
 def _same_helper(a, b):
@@ -131,6 +134,8 @@ def _volume_test(ev):
 
 @rule('E2', floor=11, title='who may delete rows, and under which guard (explicit removal, expiry, size eviction at the limit, repair)')
 def e2(ctx):
+    E2_ROLES.clear()
+    E2_ROLES.update(bind_roles(ctx, E2_TEMPLATE))
     sites = {}
     for f in core_entries(ctx):
         if f.cls != 'Cache':
@@ -285,12 +290,9 @@ def _conj(w, col):
 # ---------------------------------------------------------------------- E3
 def _cull_helper(ctx):
     """The function that executes the policy's cull statement inside a caller's transaction (receives sql)."""
-    for f in ctx.prog.classes['Cache'].methods.values():
-        if 'sql' in f.params and 'cleanup' in f.params:
-            return f
-    for f in ctx.prog.classes['Cache'].methods.values():
-        if f.name == '_cull':
-            return f
+    f = helper_roles(ctx).get('cull')
+    if f is not None:
+        return f
     raise AnalysisError('anchor vanished: cull helper')
 
 
